@@ -23,6 +23,7 @@ Rules are phrased over this canonical form so that behaviour-preserving respelli
      true for CONST -> that leaf continues with S (jump threading; the dead store goes)
  N17 `if any(C for t in xs): S` (S ends in return/raise) -> `for t in xs: if C: S`; as the last statement of a function
      `if not any(C for t in xs): S` -> `for t in xs: if C: return` then S
+ N18 a self-assignment `x = x` is dropped
  N6  `v = []` directly followed by `for t in xs: [if c:] v.append(e)` -> `v = [e for t in xs if c]`
 
 Positions (lineno) are kept from the original nodes so that reports still point into the file.
@@ -230,6 +231,11 @@ class _Norm(ast.NodeTransformer):
         while i < len(stmts):
             s = stmts[i]
             nx = stmts[i + 1] if i + 1 < len(stmts) else None
+            # N18: `x = x`
+            if (isinstance(s, ast.Assign) and len(s.targets) == 1 and isinstance(s.targets[0], ast.Name)
+                    and isinstance(s.value, ast.Name) and s.value.id == s.targets[0].id and len(stmts) > 1):
+                i += 1
+                continue
             if (isinstance(s, ast.Assign) and len(s.targets) == 1 and isinstance(s.targets[0], ast.Name)
                     and nx is not None and not _captured(fn, s.targets[0].id)):
                 v = s.targets[0].id
